@@ -804,7 +804,7 @@ static std::vector<Finding> run_scenario(const Scenario &sc, Ctx &cx, const std:
   }
   for (auto &kv : e0.who)
     if (!e0.skip.count(kv.first)) cx.rep.witness(kv.second == "user" ? "user_setting_preserved" : kv.second == "system" ? "system_value_applied" : "default_applied");
-  if (c1.get("server_detail").find("|eth0|2") != std::string::npos) cx.rep.witness("server_v6_linklocal");
+  if (c1.get("server_detail").find("|eth0|2") != std::string::npos || c1.get("server_detail").find("|vnet0|7") != std::string::npos) cx.rep.witness("server_v6_linklocal");
 
   // ---- (a) save -> init -> save
   {
@@ -1058,8 +1058,9 @@ static Srv make_srv(int pos, int kind, bool dupaddr)
   else if (ak == 1) s = v6(("2001:db8:16::" + std::to_string(p + 1)).c_str());
   else {
     s       = v6(("fe80::16:" + std::to_string(p + 1)).c_str());
-    s.iface = "eth0";
-    s.scope = 2;
+    // an interface only the application's own table knows (see exe_env.cc)
+    s.iface = "vnet0";
+    s.scope = 7;
   }
   if (pk == 1) s.udp = s.tcp = 5353;
   if (pk == 2) {
@@ -1156,7 +1157,7 @@ static Space servers_space()
   Space sp;
   sp.fam   = "servers";
   sp.total = cases->size();
-  sp.bound = "servers: lists of 1..3 servers over {IPv4, IPv6, link-local IPv6%eth0} x {default ports, udp=tcp=5353, udp 5353 / tcp 5354}, plus 2-entry lists repeating an address, through "
+  sp.bound = "servers: lists of 1..3 servers over {IPv4, IPv6, link-local IPv6%vnet0 (an interface only the application's socket functions know)} x {default ports, udp=tcp=5353, udp 5353 / tcp 5354}, plus 2-entry lists repeating an address, through "
              "ares_set_servers / ares_set_servers_ports / ares_set_servers_csv / ares_set_servers_ports_csv x channel-wide {none, udp 5300, tcp 5301, both} port options; "
              "system configuration with other servers; reinit to a configuration with yet other servers (" + std::to_string(cases->size()) + " cases)";
   sp.get  = [cases](unsigned long long idx) { return servers_scenario((*cases)[(size_t)idx]); };
